@@ -104,8 +104,12 @@ async def request(
 
             # If we are asked to retry later, do so, and obey the requested backoff.
             if isinstance(e, errors.APITooManyRequestsError):
-                if e.headers and e.headers.get("Retry-After"):
-                    retry_after = _parse_retry_after(e.headers["Retry-After"])  # the new style
+                # NB: header names are case-insensitive (HTTP/2 & proxies send "retry-after"),
+                # but APIError keeps them in a plain (case-sensitive) dict.
+                header = next((v for k, v in (e.headers or {}).items()
+                               if k.lower() == 'retry-after'), None)
+                if header:
+                    retry_after = _parse_retry_after(header)  # the new style
                 elif e.details and e.details.get("retryAfterSeconds"):
                     retry_after = int(e.details["retryAfterSeconds"])  # the old style
                 else:
